@@ -3,7 +3,7 @@ CONSTANTS
   Threads = {"t1", "t2", "t3"}
   Params = {"p1"}
   Vals = {"a", "b"}
-  Errs = {"e1"}
+  Errs = {}
   Conns = {"c1"}
   MaxOps = 2
   Omit = 2
